@@ -120,7 +120,10 @@ class AsyncioTransportStreamSocketAdapter(AsyncStreamTransport):
         await self.__protocol.writer_drain()
 
     async def send_all_from_iterable(self, iterable_of_data: Iterable[bytes | bytearray | memoryview]) -> None:
-        self.__transport.writelines(iterable_of_data)
+        # Do not hand empty buffers over to the asyncio transport: a zero-length buffer left in its write queue is never
+        # removed (sendmsg() reports 0 byte sent for it), so the write callback would be called in a busy loop
+        # and transport.close() would never complete.
+        self.__transport.writelines([data for data in iterable_of_data if memoryview(data).nbytes])
         await self.__protocol.writer_drain()
 
     async def send_eof(self) -> None:
